@@ -65,7 +65,14 @@ class DecCtx(StrMixin, VerifContext):
 
     def format_numeric(self, interp, v, spec):
         if isinstance(v, SReal) and spec in RND:
-            return SStr([Cell(int(spec.split(".")[0]), num(RND[spec](v.t), "float", "l"), ">")])
+            # the width of a format spec is a minimum: a numeral that needs more characters (|exponent| >= 100 with a sign,
+            # a temperature bound >= 1e6) is printed in full - both cases are paths of the contract
+            self._nnum = getattr(self, "_nnum", 0) + 1
+            h = num(RND[spec](v.t), "float", f"l!{self._nnum}")
+            width = int(spec.split(".")[0])
+            if interp.branch(h.extra["len"] <= width):
+                return SStr([Cell(width, h, ">")])
+            return SStr([h])
         if isinstance(v, SInt):
             import re
             m = re.fullmatch(r"([<>]?)(\d+)d?", spec)
